@@ -75,6 +75,22 @@ pub fn run(ctx: &Ctx) -> i32 {
         all_fix &= !st.capped;
         per_cfg.push(stats_json(name, &st));
     }
+    // ---- a chain far deeper than the explored namespaces: after remove_all nothing is left, after a copy and
+    // a move the indexes still agree (invariants on the complete dump)
+    {
+        use rivia::prelude::*;
+        let fs = Memfs::new();
+        crate::models::deep::report_main("removal", crate::models::deep::removal("memfs", &fs, "/e"));
+        let d = fs.verif_dump();
+        if d.entries.len() != 1 || !d.files.is_empty() {
+            vio("C03 deep chain · remove_all leaves entries or data behind", || format!("after remove_all of a chain of {} directories {} entries and {} data records remain", crate::models::deep::DEEP, d.entries.len(), d.files.len()), || J::obj([("part", J::s("deep-chain")), ("suite", J::s("removal"))]));
+        }
+        let fs = Memfs::new();
+        crate::models::deep::report_main("copy_move", crate::models::deep::copy_move("memfs", &fs, "/e", "/e-copy", "/e-moved"));
+        for (code, detail) in invariants::check(&fs.verif_dump()) {
+            vio(&format!("C03 {} after copy/move_p of a deep chain", code), || detail.clone(), || J::obj([("part", J::s("deep-chain")), ("suite", J::s("copy_move"))]));
+        }
+    }
     // ---- the schedule half: every interleaving of the critical sections of small concurrent programs
     // (C04's explorer and quick families), invariants I1-I8 on the dump at quiescence
     let (sched_programs, schedules, sched_fams) = match crate::props::c04::explore_integrity(ctx) {
